@@ -340,6 +340,184 @@ fn do_repro_cent(src: &Source, t: &mut Toks, o: &mut Out) {
     o.obs(73, &[vec![0]], &[]);
 }
 
+/// one canonicalised answer: (function tag, integer content, float content)
+type Item = (i64, Vec<i64>, Vec<f64>);
+
+pub const ALL_TAGS: [&str; 22] = [
+    "square_clustering", "bfs_equal_size_partitions(1)", "bfs_equal_size_partitions(2)", "bfs_equal_size_partitions(3)",
+    "bfs_equal_size_partitions(4)", "clustering(unweighted)", "clustering(weighted)", "average_clustering", "transitivity",
+    "triangles", "generalized_degree", "connected_components", "weakly_connected_components",
+    "strongly_connected_components", "eigenvector_centrality", "degree_centrality", "dijkstra::all_pairs",
+    "modularity(components)", "breadth_first_search", "closeness_centrality", "betweenness_centrality",
+    "node_connected_component",
+];
+
+fn all_algorithms(g: &G, weighted: bool) -> Vec<Item> {
+    use graphrs::algorithms::centrality::{betweenness, closeness, degree, eigenvector};
+    use graphrs::algorithms::shortest_path::dijkstra;
+    use graphrs::algorithms::{cluster, components};
+    use std::collections::HashMap;
+    let mut out: Vec<Item> = vec![];
+    fn fmap(tag: i64, r: Option<Result<HashMap<i64, f64>, graphrs::Error>>) -> Item {
+        match r {
+            None => (tag, vec![PANIC], vec![]),
+            Some(Err(e)) => (tag, vec![-kind_code(&e.kind)], vec![]),
+            Some(Ok(m)) => {
+                let mut v: Vec<(i64, f64)> = m.into_iter().collect();
+                v.sort_by(|a, b| a.0.cmp(&b.0));
+                (tag, v.iter().map(|x| x.0).collect(), v.iter().map(|x| x.1).collect())
+            }
+        }
+    }
+    fn fval(tag: i64, r: Option<Result<f64, graphrs::Error>>) -> Item {
+        match r {
+            None => (tag, vec![PANIC], vec![]),
+            Some(Err(e)) => (tag, vec![-kind_code(&e.kind)], vec![]),
+            Some(Ok(x)) => (tag, vec![0], vec![x]),
+        }
+    }
+    fn sets(tag: i64, r: Option<Result<Vec<HashSet<i64>>, graphrs::Error>>) -> (Item, Vec<HashSet<i64>>) {
+        match r {
+            None => ((tag, vec![PANIC], vec![]), vec![]),
+            Some(Err(e)) => ((tag, vec![-kind_code(&e.kind)], vec![]), vec![]),
+            Some(Ok(cs)) => {
+                let mut v: Vec<Vec<i64>> = cs.iter().map(|c| { let mut x: Vec<i64> = c.iter().cloned().collect(); x.sort(); x }).collect();
+                v.sort();
+                let mut flat = vec![];
+                for c in v { flat.extend(c); flat.push(-1); }
+                ((tag, flat, vec![]), cs)
+            }
+        }
+    }
+    out.push(fmap(0, guard(|| Ok(cluster::square_clustering(g, None)))));
+    for k in 1..=4usize {
+        let r = guard(|| components::bfs_equal_size_partitions(g, k));
+        out.push(match r {
+            None => (k as i64, vec![PANIC], vec![]),
+            Some(ps) => {
+                // as sets of sets (the order inside a partition and of the partitions is not part of the answer)
+                let mut v: Vec<Vec<i64>> = ps.into_iter().map(|mut p| { p.sort(); p }).collect();
+                v.sort();
+                let mut flat = vec![];
+                for p in v { flat.extend(p); flat.push(-1); }
+                (k as i64, flat, vec![])
+            }
+        });
+    }
+    out.push(fmap(5, guard(|| cluster::clustering(g, false, None))));
+    out.push(fmap(6, guard(|| cluster::clustering(g, weighted, None))));
+    out.push(fval(7, guard(|| cluster::average_clustering(g, weighted, None, true))));
+    out.push(fval(8, guard(|| cluster::transitivity(g))));
+    out.push(match guard(|| cluster::triangles(g, None)) {
+        None => (9, vec![PANIC], vec![]),
+        Some(Err(e)) => (9, vec![-kind_code(&e.kind)], vec![]),
+        Some(Ok(m)) => {
+            let mut v: Vec<(i64, i64)> = m.into_iter().map(|(k, x)| (k, x as i64)).collect();
+            v.sort();
+            (9, v.iter().flat_map(|x| vec![x.0, x.1]).collect(), vec![])
+        }
+    });
+    out.push(match guard(|| cluster::generalized_degree(g, None)) {
+        None => (10, vec![PANIC], vec![]),
+        Some(Err(e)) => (10, vec![-kind_code(&e.kind)], vec![]),
+        Some(Ok(m)) => {
+            let mut v: Vec<(i64, i64, i64)> = vec![];
+            for (k, mm) in m { for (a, b) in mm { v.push((k, a as i64, b as i64)); } }
+            v.sort();
+            (10, v.iter().flat_map(|x| vec![x.0, x.1, x.2]).collect(), vec![])
+        }
+    });
+    let (it, comps) = sets(11, guard(|| components::connected_components(g)));
+    out.push(it);
+    let (it, wcomps) = sets(12, guard(|| components::weakly_connected_components(g)));
+    out.push(it);
+    out.push(sets(13, guard(|| components::strongly_connected_components(g))).0);
+    // eigenvector: the power iteration stops at a tolerance, so only agreement far above it is asked for
+    out.push(fmap(14, guard(|| eigenvector::eigenvector_centrality(g, weighted, None, None))));
+    out.push(fmap(15, guard(|| Ok(degree::degree_centrality(g)))));
+    out.push(match guard(|| dijkstra::all_pairs(g, weighted, None, None, false, true)) {
+        None => (16, vec![PANIC], vec![]),
+        Some(Err(e)) => (16, vec![-kind_code(&e.kind)], vec![]),
+        Some(Ok(m)) => {
+            let mut v: Vec<(i64, i64, f64, Vec<Vec<i64>>)> = vec![];
+            for (s0, mm) in m { for (t0, i) in mm { let mut ps = i.paths.clone(); ps.sort(); v.push((s0, t0, i.distance, ps)); } }
+            v.sort_by(|a, b| (a.0, a.1).cmp(&(b.0, b.1)));
+            let mut ints = vec![];
+            let mut fl = vec![];
+            for (s0, t0, d, ps) in v {
+                ints.push(s0); ints.push(t0); fl.push(d);
+                for p in ps { ints.extend(p); ints.push(-1); }
+                ints.push(-2);
+            }
+            (16, ints, fl)
+        }
+    });
+    let parts = if comps.is_empty() { wcomps } else { comps };
+    out.push(fval(17, guard(|| partitions::modularity(g, &parts, weighted, None))));
+    if let Some(n0) = g.get_all_nodes().iter().map(|n| n.name).min() {
+        out.push(match guard(|| g.breadth_first_search(&n0)) {
+            None => (18, vec![PANIC], vec![]),
+            // the reachable set (the order inside one level follows hash iteration in the unchanged code)
+            Some(mut v) => { v.sort(); (18, v, vec![]) }
+        });
+        out.push(match guard(|| components::node_connected_component(g, &n0)) {
+            None => (21, vec![PANIC], vec![]),
+            Some(Err(e)) => (21, vec![-kind_code(&e.kind)], vec![]),
+            Some(Ok(c)) => { let mut x: Vec<i64> = c.into_iter().collect(); x.sort(); (21, x, vec![]) }
+        });
+    }
+    out.push(fmap(19, guard(|| closeness::closeness_centrality(g, weighted, true))));
+    out.push(fmap(20, guard(|| betweenness::betweenness_centrality(g, weighted, true))));
+    out
+}
+
+/// "All non-randomised algorithms return the same answer for the same graph on every call, up to floating-point
+/// rounding of sums": every algorithm of the library, three times on one graph value, on four freshly rebuilt
+/// copies (freshly keyed hash tables) and under pools of 1 / 4 / 16 threads. Integer content must be identical,
+/// float content equal to 1e-9 relative (eigenvector: 1e-4 absolute, it stops at a tolerance). The integer content
+/// of the first run is printed so that fresh processes are compared as well.
+fn do_repro_all(src: &Source, t: &mut Toks, o: &mut Out) {
+    let weighted = t.i() != 0;
+    let mut outs: Vec<Vec<Item>> = vec![];
+    let g0 = rebuild(src);
+    for _ in 0..3 {
+        outs.push(all_algorithms(&g0, weighted));
+    }
+    for _ in 0..4 {
+        let g = rebuild(src);
+        outs.push(all_algorithms(&g, weighted));
+    }
+    for k in POOLS {
+        let g = rebuild(src);
+        outs.push(in_pool(k, move || all_algorithms(&g, weighted)));
+    }
+    let closef = |tag: i64, a: f64, b: f64| {
+        (a.is_nan() && b.is_nan())
+            || a == b
+            || if tag == 14 { (a - b).abs() <= 1e-4 } else { (a - b).abs() <= 1e-9 * a.abs().max(b.abs()) }
+    };
+    let first = outs[0].clone();
+    let mut differing: Vec<i64> = vec![];
+    for x in outs.iter().skip(1) {
+        if x.len() != first.len() {
+            differing.push(-1);
+            continue;
+        }
+        for (a, b) in first.iter().zip(x.iter()) {
+            let same = a.0 == b.0 && a.1 == b.1 && a.2.len() == b.2.len() && a.2.iter().zip(b.2.iter()).all(|(p, q)| closef(a.0, *p, *q));
+            if !same && !differing.contains(&a.0) {
+                differing.push(a.0);
+            }
+        }
+    }
+    differing.sort();
+    o.obs(85, &[vec![outs.len() as i64, first.len() as i64, differing.len() as i64], differing], &[]);
+    // the float-free answers themselves: identical in every process
+    let rows: Vec<Vec<i64>> = first.iter().filter(|i| i.2.is_empty()).map(|i| { let mut r = vec![i.0]; r.extend(i.1.iter()); r }).collect();
+    o.obs(86, &rows, &[]);
+    o.obs(73, &[vec![0]], &[]);
+}
+
 type GnpOut = (i64, Vec<i64>, Vec<Vec<i64>>);
 
 fn call_gnp(n: i32, p: f64, directed: bool, seed: Option<u64>) -> GnpOut {
@@ -430,6 +608,7 @@ pub fn run_case(lines: &[Vec<String>], o: &mut Out) {
                 ("louv", Some(g)) => do_repro_louv(g, source.as_ref().unwrap(), &mut t, o),
                 ("gnp", _) => do_repro_gnp(&mut t, o),
                 ("cent", Some(_)) => do_repro_cent(source.as_ref().unwrap(), &mut t, o),
+                ("all", Some(_)) => do_repro_all(source.as_ref().unwrap(), &mut t, o),
                 _ => {}
             },
             _ => {}
